@@ -237,6 +237,9 @@ func (st *sortTable) structOf(t types.Type) *structInfo {
 		f := u.Field(i)
 		so := st.sortOf(f.Type())
 		sel := fmt.Sprintf("%s.%s", si.name, f.Name())
+		if f.Name() == "_" || f.Name() == "" {
+			sel = fmt.Sprintf("%s._%d", si.name, i)
+		}
 		si.fields = append(si.fields, sel)
 		si.sorts = append(si.sorts, so)
 		fs = append(fs, fmt.Sprintf("(%s %s)", sel, so))
